@@ -1110,15 +1110,78 @@ func (n *normalizer) methodValueClosureRound() bool {
 			if _, ptrRecv := sig.Recv().Type().(*types.Pointer); !ptrRecv {
 				return true
 			}
-			id, ok := ast.Unparen(sel.X).(*ast.Ident)
-			if !ok {
-				return true
-			}
-			v, ok := n.info.Uses[id].(*types.Var)
-			if !ok || v.IsField() || v.Parent() == nil || v.Parent() == n.pp.Types.Scope() || n.varBad[v] || n.varAssign[v] != nil {
-				return true
-			}
-			if _, isPtr := v.Type().Underlying().(*types.Pointer); !isPtr {
+			recvText := ""
+			if id, ok := ast.Unparen(sel.X).(*ast.Ident); ok {
+				v, ok := n.info.Uses[id].(*types.Var)
+				if !ok || v.IsField() || v.Parent() == nil || v.Parent() == n.pp.Types.Scope() || n.varBad[v] || n.varAssign[v] != nil {
+					return true
+				}
+				if _, isPtr := v.Type().Underlying().(*types.Pointer); !isPtr {
+					return true
+				}
+				recvText = id.Name
+			} else if ue, ok := ast.Unparen(sel.X).(*ast.UnaryExpr); ok && ue.Op == token.AND {
+				// (&T{f: x}).m — a fresh object per method value, whose fields are names that are never assigned again and
+				// whose method does not write to its receiver: building the object when the closure is called gives the
+				// same calls with the same values
+				lit, ok := ast.Unparen(ue.X).(*ast.CompositeLit)
+				if !ok {
+					return true
+				}
+				for _, el := range lit.Elts {
+					val := el
+					if kv, isKV := el.(*ast.KeyValueExpr); isKV {
+						val = kv.Value
+					}
+					vid, isId := ast.Unparen(val).(*ast.Ident)
+					if !isId {
+						return true
+					}
+					vv, isVar := n.info.Uses[vid].(*types.Var)
+					if !isVar || vv.IsField() || vv.Parent() == n.pp.Types.Scope() || n.varBad[vv] || n.varAssign[vv] != nil {
+						return true
+					}
+				}
+				recvObj := (*types.Var)(nil)
+				if fd.Recv != nil && len(fd.Recv.List) == 1 && len(fd.Recv.List[0].Names) == 1 {
+					recvObj, _ = n.info.Defs[fd.Recv.List[0].Names[0]].(*types.Var)
+				}
+				writes := false
+				ast.Inspect(fd.Body, func(y ast.Node) bool {
+					switch z := y.(type) {
+					case *ast.AssignStmt:
+						for _, l := range z.Lhs {
+							ast.Inspect(l, func(w ast.Node) bool {
+								if id2, ok := w.(*ast.Ident); ok && recvObj != nil && n.info.Uses[id2] == types.Object(recvObj) {
+									writes = true
+								}
+								return true
+							})
+						}
+					case *ast.IncDecStmt:
+						ast.Inspect(z.X, func(w ast.Node) bool {
+							if id2, ok := w.(*ast.Ident); ok && recvObj != nil && n.info.Uses[id2] == types.Object(recvObj) {
+								writes = true
+							}
+							return true
+						})
+					case *ast.UnaryExpr:
+						if z.Op == token.AND {
+							ast.Inspect(z.X, func(w ast.Node) bool {
+								if id2, ok := w.(*ast.Ident); ok && recvObj != nil && n.info.Uses[id2] == types.Object(recvObj) {
+									writes = true
+								}
+								return true
+							})
+						}
+					}
+					return true
+				})
+				if recvObj == nil || writes {
+					return true
+				}
+				recvText = "(" + n.src(filename, ue.Pos(), ue.End()) + ")"
+			} else {
 				return true
 			}
 			if n.overlaps(filename, n.off(sel.Pos()), n.off(sel.End())) {
@@ -1158,9 +1221,9 @@ func (n *normalizer) methodValueClosureRound() bool {
 			} else if len(results) > 1 {
 				res, ret = " ("+strings.Join(results, ", ")+")", "return "
 			}
-			text := fmt.Sprintf("func(%s)%s { %s%s.%s(%s) }", strings.Join(params, ", "), res, ret, id.Name, sel.Sel.Name, strings.Join(args, ", "))
+			text := fmt.Sprintf("func(%s)%s { %s%s.%s(%s) }", strings.Join(params, ", "), res, ret, recvText, sel.Sel.Name, strings.Join(args, ", "))
 			n.addEdit(filename, n.off(sel.Pos()), n.off(sel.End()), text)
-			n.notes = append(n.notes, fmt.Sprintf("method value %s.%s written as a closure calling the method", id.Name, sel.Sel.Name))
+			n.notes = append(n.notes, fmt.Sprintf("method value %s.%s written as a closure calling the method", recvText, sel.Sel.Name))
 			changed = true
 			return true
 		})
@@ -2264,4 +2327,221 @@ func (n *normalizer) tryUnwrap(tn *types.TypeName, named *types.Named, fld *type
 	}
 	n.notes = append(n.notes, fmt.Sprintf("one-field struct type %s replaced by the type of its field %s", tn.Name(), fld.Name()))
 	return true
+}
+
+// copyPropRound: `x := y` for a local y of a struct type the reference tree does not have, where x is only read field by
+// field (the receiver copy of an inlined value-receiver method) and y is not written, nor its address taken, while x is in
+// scope: x.f reads the value y.f has — the copy is dropped and its reads go to y.
+func (n *normalizer) copyPropRound() bool {
+	changed := false
+	for _, f := range n.pp.Syntax {
+		filename := n.fset.File(f.Pos()).Name()
+		for _, d := range f.Decls {
+			fd, ok := d.(*ast.FuncDecl)
+			if !ok || fd.Body == nil {
+				continue
+			}
+			parent := map[ast.Node]ast.Node{}
+			inLit := map[ast.Node]bool{}
+			var stack []ast.Node
+			litDepth := 0
+			ast.Inspect(fd.Body, func(x ast.Node) bool {
+				if x == nil {
+					if _, isLit := stack[len(stack)-1].(*ast.FuncLit); isLit {
+						litDepth--
+					}
+					stack = stack[:len(stack)-1]
+					return true
+				}
+				if len(stack) > 0 {
+					parent[x] = stack[len(stack)-1]
+				}
+				if _, isLit := x.(*ast.FuncLit); isLit {
+					litDepth++
+				}
+				if litDepth > 0 {
+					inLit[x] = true
+				}
+				stack = append(stack, x)
+				return true
+			})
+			newStruct := func(t types.Type) bool {
+				named, ok := t.(*types.Named)
+				if !ok || named.Obj().Pkg() != n.pp.Types || headTypes[named.Obj().Name()] {
+					return false
+				}
+				_, isStruct := named.Underlying().(*types.Struct)
+				return isStruct
+			}
+			// writes and address-takings per variable: positions
+			type acc struct {
+				pos   token.Pos
+				inLit bool
+			}
+			writes := map[types.Object][]acc{}
+			rootOf := func(e ast.Expr) types.Object {
+				for {
+					switch y := ast.Unparen(e).(type) {
+					case *ast.SelectorExpr:
+						e = y.X
+						continue
+					case *ast.IndexExpr:
+						e = y.X
+						continue
+					case *ast.Ident:
+						if o := n.info.Uses[y]; o != nil {
+							return o
+						}
+						return n.info.Defs[y]
+					}
+					return nil
+				}
+			}
+			ast.Inspect(fd.Body, func(x ast.Node) bool {
+				switch y := x.(type) {
+				case *ast.AssignStmt:
+					if y.Tok != token.DEFINE {
+						for _, l := range y.Lhs {
+							if o := rootOf(l); o != nil {
+								writes[o] = append(writes[o], acc{y.Pos(), inLit[y]})
+							}
+						}
+					}
+				case *ast.IncDecStmt:
+					if o := rootOf(y.X); o != nil {
+						writes[o] = append(writes[o], acc{y.Pos(), inLit[y]})
+					}
+				case *ast.UnaryExpr:
+					if y.Op == token.AND {
+						if o := rootOf(y.X); o != nil {
+							writes[o] = append(writes[o], acc{token.NoPos, true}) // address taken: anything may write it
+						}
+					}
+				case *ast.RangeStmt:
+					if y.Tok != token.DEFINE {
+						for _, l := range []ast.Expr{y.Key, y.Value} {
+							if l != nil {
+								if o := rootOf(l); o != nil {
+									writes[o] = append(writes[o], acc{y.Pos(), inLit[y]})
+								}
+							}
+						}
+					}
+				case *ast.CallExpr:
+					// a method with a pointer receiver called on an addressable variable takes its address
+					if se, ok := y.Fun.(*ast.SelectorExpr); ok {
+						if sel := n.info.Selections[se]; sel != nil && sel.Kind() == types.MethodVal {
+							if sig, ok := sel.Obj().Type().(*types.Signature); ok && sig.Recv() != nil {
+								if _, ptr := sig.Recv().Type().(*types.Pointer); ptr {
+									if _, isPtr := n.info.TypeOf(se.X).Underlying().(*types.Pointer); !isPtr {
+										if o := rootOf(se.X); o != nil {
+											writes[o] = append(writes[o], acc{token.NoPos, true})
+										}
+									}
+								}
+							}
+						}
+					}
+				}
+				return true
+			})
+			appliedX, appliedY := map[types.Object]bool{}, map[types.Object]bool{}
+			ast.Inspect(fd.Body, func(x ast.Node) bool {
+				as, ok := x.(*ast.AssignStmt)
+				if !ok || as.Tok != token.DEFINE || len(as.Lhs) != 1 || len(as.Rhs) != 1 || inLit[as] {
+					return true
+				}
+				xid, ok1 := as.Lhs[0].(*ast.Ident)
+				yid, ok2 := ast.Unparen(as.Rhs[0]).(*ast.Ident)
+				if !ok1 || !ok2 || xid.Name == "_" {
+					return true
+				}
+				xo, _ := n.info.Defs[xid].(*types.Var)
+				yo, _ := n.info.Uses[yid].(*types.Var)
+				if xo == nil || yo == nil || xo == yo || yo.IsField() || yo.Parent() == n.pp.Types.Scope() || !newStruct(xo.Type()) || !types.Identical(xo.Type(), yo.Type()) {
+					return true
+				}
+				if appliedX[yo] || appliedY[xo] || appliedX[xo] {
+					return true // a link of a chain of copies that is being shortened in this round: next round
+				}
+				blk, ok := parent[as].(*ast.BlockStmt)
+				if !ok {
+					return true
+				}
+				// y untouched while x is in scope
+				for _, w := range writes[yo] {
+					if w.inLit || (w.pos >= as.End() && w.pos <= blk.End()) {
+						return true
+					}
+				}
+				if len(writes[xo]) > 0 {
+					return true
+				}
+				// uses of x
+				var reads []*ast.Ident
+				var blanks []*ast.AssignStmt
+				good := true
+				ast.Inspect(fd.Body, func(z ast.Node) bool {
+					id, ok := z.(*ast.Ident)
+					if !ok || n.info.Uses[id] != types.Object(xo) {
+						return true
+					}
+					if inLit[id] {
+						good = false
+						return true
+					}
+					switch p := parent[id].(type) {
+					case *ast.SelectorExpr:
+						if p.X == ast.Expr(id) {
+							if sel := n.info.Selections[p]; sel != nil && sel.Kind() == types.FieldVal {
+								// the name y must mean y here
+								if sc := n.pp.Types.Scope().Innermost(id.Pos()); sc != nil {
+									if _, o := sc.LookupParent(yo.Name(), id.Pos()); o == types.Object(yo) {
+										reads = append(reads, id)
+										return true
+									}
+								}
+							}
+						}
+					case *ast.AssignStmt:
+						if len(p.Lhs) == 1 && len(p.Rhs) == 1 && p.Rhs[0] == ast.Expr(id) {
+							if b, ok := p.Lhs[0].(*ast.Ident); ok && b.Name == "_" && p.Tok == token.ASSIGN {
+								blanks = append(blanks, p)
+								return true
+							}
+						}
+					}
+					good = false
+					return true
+				})
+				if !good {
+					return true
+				}
+				type ed struct {
+					s, e int
+					t    string
+				}
+				eds := []ed{{n.off(as.Pos()), n.off(as.End()), ""}}
+				for _, b := range blanks {
+					eds = append(eds, ed{n.off(b.Pos()), n.off(b.End()), ""})
+				}
+				for _, id := range reads {
+					eds = append(eds, ed{n.off(id.Pos()), n.off(id.End()), yo.Name()})
+				}
+				for _, e := range eds {
+					if n.overlaps(filename, e.s, e.e) {
+						return true
+					}
+				}
+				for _, e := range eds {
+					n.addEdit(filename, e.s, e.e, e.t)
+				}
+				n.notes = append(n.notes, fmt.Sprintf("copy %s of struct local %s in %s dropped: its field reads go to %s", xo.Name(), yo.Name(), fd.Name.Name, yo.Name()))
+				changed = true
+				appliedX[xo], appliedY[yo] = true, true
+				return true
+			})
+		}
+	}
+	return changed
 }
